@@ -8,7 +8,7 @@ from props.c02 import show_value, canon_err
 
 LEVEL = "proof"
 MANIFEST = dict(
-    text="Lean 4 theorems over the structure/observable model for every block, every in-block (offset, segment) update (straddling, one byte of a "
+    text="Lean 4 theorems over the structure/observable model for every block, every in-block (offset, segment) update (straddling, one byte of a  State inventory (notification_state_inventory): status_block_changed and the value decoders write no attribute; both structures write only the block."
          "2-byte item, identical bytes, empty), every item with sane geometry (all shipped ones but D9, by C18) and every observer list: an item's "
          "observers are called exactly once each, in order, with (old, new) and the new block readable, iff its decoded value differs "
          "(item_notifies_iff_changed / notifies_iff_changed); the range filter loses nothing (skipped_item_unchanged, over the translated filter); "
@@ -172,7 +172,7 @@ def gen_ops(rng, items, n_ops):
 
 
 def run(ctx):
-    st = translate.run(["AccessorArith", "Packs", "Pinned"])
+    st = translate.run(["AccessorArith", "Packs", "Pinned", "Skeletons"])
     ctx.cov["translator"] = st
     for k, v in st.items():
         if v != "ok":
